@@ -108,6 +108,33 @@ class C15(World):
         self.nontrivial = True
         return (kind, cut)
 
+    # -- disk faults -------------------------------------------------------------------
+    def disk_fault(self, op, path):
+        import errno
+        if not path.startswith(DATA_DIR) or self.force_beh is not None or self.in_mutation_probe:
+            return
+        kind = {"write": "enospc-on-write", "replace": "eio-on-replace", "open": "eio-on-create"}.get(op)
+        if kind not in self.disk_faults:
+            return
+        if op == "open" and self.fs.exists(path):
+            return                      # only creation of new files fails
+        if not self.ch.flag("disk.fault." + kind, 0.15):
+            return
+        self.sim.count("fault.disk." + kind)
+        self.nontrivial = True
+        self.sim.log(f"disk fault: {kind} on {path.rsplit('/', 1)[-1]}")
+        if kind == "enospc-on-write":
+            raise OSError(errno.ENOSPC, "No space left on device", path)
+        raise OSError(errno.EIO, "Input/output error", path)
+
+    def short_write(self, path, n):
+        if not path.startswith(DATA_DIR) or self.force_beh is not None:
+            return None
+        if not self.ch.flag("disk.short", 0.3):
+            return None
+        self.sim.count("fault.disk.short-write")
+        return 1 + self.ch.pick("disk.short.k", n - 1)
+
     # -- crash points ------------------------------------------------------------------
     def check_states(self, states, phase, why):
         if states is None:
@@ -347,6 +374,14 @@ class C15(World):
         self.uidents = self.idents
         self.fs.on_mutation = self.on_mutation
         self.fs.on_torn = self.on_torn
+        self.disk_faults = []
+        if self.faults_on:
+            self.disk_faults = [k for k in ("enospc-on-write", "eio-on-replace", "eio-on-create", "short-write")
+                                if ch.flag("cfg.fault.disk." + k, 0.35)]
+            if self.disk_faults:
+                self.fs.faults = self.disk_fault
+                if "short-write" in self.disk_faults:
+                    self.fs.short_write = self.short_write
         self.net.fault_policy = self.fault_policy
         self.net.latency = lambda: (1 + ch.pick("net.latency", 50)) / 100.0 if self.faults_on else 0.01
         for idn in slots:
